@@ -84,8 +84,10 @@ pub fn explore_case(desc: String, base: &RunCfg, max_paths: u64, body: &dyn Fn()
         let r = catch_unwind(AssertUnwindSafe(|| body()));
         let panicked = r.is_err();
         if let Ok(notes) = r {
-            if res.paths == 0 {
-                res.notes = notes;
+            for n in notes {
+                if !res.notes.contains(&n) && res.notes.len() < 64 {
+                    res.notes.push(n);
+                }
             }
         }
         let pmsg = take_panic();
